@@ -2,7 +2,7 @@
 (detail/func_matrix.inl, gtc/matrix_inverse.inl, operator/ of type_mat{2x2,3x3,4x4}.inl, gtx/matrix_operation.inl, gtx/matrix_query.inl, gtx/matrix_factorisation.inl)."""
 from props.common import *
 from props.c02 import unflat, flat, mmul, mulv, vmul, ssum, one, zero, int_mirror, Structure
-import itertools
+import itertools, functools
 LEVEL = 'proof'
 CLAIM = ("inverse (2x2, 3x3, 4x4), determinant, inverseTranspose, affineInverse (mat3/mat4), operator/ (mat/mat, mat/vec, vec/mat, /=), gtx adjugate, diagonal builders and "
          "qr_decompose/rq_decompose are executed symbolically from their clang IR over fully symbolic float/double matrices in rounding-erased (real) semantics; the solver shows "
@@ -64,14 +64,88 @@ def leibniz(A):
         term = term if perm_sign(p) > 0 else -term
         tot = term if tot is None else tot + term
     return tot
-def rv(xs): return [x.r if isinstance(x, RV) else x for x in xs]
+def rv(xs): return fracs(xs, _FC)
+_FC = {}
 def delta(c, r, like): return one(like) if c == r else zero(like)
 def transpose(A): return [[A[c][r] for c in range(len(A))] for r in range(len(A[0]))]
+
+
+# ------------------------------------------------------------------ division-free goals
+# nlsat is fast on polynomial identities but does not finish when every entry of the code's output carries its own quotient (inverseTranspose: cof / det).
+# The code's divisors are proved non-zero under the precondition (the executor's 'domain' obligations, name *.domain).  Every output term is then read as a
+# fraction N / D (D a product of the code's own divisors) by the field rules a/b + c/d = (ad + cb)/(bd), (a/b)(c/d) = ac/(bd), (a/b)/(c/d) = ad/(bc), and an
+# equality goal N1/D1 == N2/D2 is handed to the solver cross-multiplied, N1*D2 == N2*D1 (equivalent because D1, D2 != 0).
+class Frac:
+    """numerator term, denominator as {divisor id: (divisor term, power)}"""
+    def __init__(s, n, d=None): s.n = n; s.d = d or {}
+    @staticmethod
+    def of(x): return x if isinstance(x, Frac) else Frac(x.r if isinstance(x, RV) else (z3.RealVal(x) if isinstance(x, int) else x))
+    def den(s):
+        t = None
+        for k in sorted(s.d):
+            term, p = s.d[k]
+            for _ in range(p): t = term if t is None else t * term
+        return t
+    @staticmethod
+    def _scale(n, have, want):
+        """n * prod(want / have)"""
+        for k in sorted(want):
+            term, p = want[k]; q = have.get(k, (term, 0))[1]
+            for _ in range(p - q): n = n * term
+        return n
+    @staticmethod
+    def _lcm(a, b):
+        r = dict(a)
+        for k, (term, p) in b.items(): r[k] = (term, max(p, r.get(k, (term, 0))[1]))
+        return r
+    def __add__(s, o):
+        o = Frac.of(o); l = Frac._lcm(s.d, o.d); return Frac(Frac._scale(s.n, s.d, l) + Frac._scale(o.n, o.d, l), l)
+    __radd__ = lambda s, o: Frac.of(o) + s
+    def __sub__(s, o):
+        o = Frac.of(o); l = Frac._lcm(s.d, o.d); return Frac(Frac._scale(s.n, s.d, l) - Frac._scale(o.n, o.d, l), l)
+    __rsub__ = lambda s, o: Frac.of(o) - s
+    def __neg__(s): return Frac(-s.n, s.d)
+    def __mul__(s, o):
+        o = Frac.of(o); d = dict(s.d)
+        for k, (term, p) in o.d.items(): d[k] = (term, p + d.get(k, (term, 0))[1])
+        return Frac(s.n * o.n, d)
+    __rmul__ = lambda s, o: Frac.of(o) * s
+    def __truediv__(s, o):
+        o = Frac.of(o)
+        # (n1/d1) / (n2/d2) = n1*d2 / (d1*n2): the numerator of the divisor becomes a base divisor
+        r = s * Frac(o.den() if o.d else z3.RealVal(1), {})
+        key = o.n.get_id(); d = dict(r.d); d[key] = (o.n, 1 + d.get(key, (o.n, 0))[1])
+        return Frac(r.n, d)
+def to_frac(t, cache):
+    k = t.get_id()
+    if k in cache: return cache[k]
+    kd = t.decl().kind(); ch = t.children()
+    if z3.is_rational_value(t) or not ch: r = Frac(t)
+    elif kd == z3.Z3_OP_ADD: r = functools.reduce(lambda p, q: p + q, [to_frac(c, cache) for c in ch])
+    elif kd == z3.Z3_OP_MUL: r = functools.reduce(lambda p, q: p * q, [to_frac(c, cache) for c in ch])
+    elif kd == z3.Z3_OP_SUB: r = functools.reduce(lambda p, q: p - q, [to_frac(c, cache) for c in ch])
+    elif kd == z3.Z3_OP_UMINUS: r = -to_frac(ch[0], cache)
+    elif kd == z3.Z3_OP_DIV:
+        d = to_frac(ch[1], cache)
+        r = to_frac(ch[0], cache) * Frac(z3.RealVal(1) / d.n, {}) if (z3.is_rational_value(d.n) and not d.d) else to_frac(ch[0], cache) / d
+    else: r = Frac(t)          # opaque (ite, sqrt variable, ...)
+    cache[k] = r; return r
+def FEq(l, r):
+    if isinstance(l, Frac) or isinstance(r, Frac):
+        l, r = Frac.of(l), Frac.of(r); m = Frac._lcm(l.d, r.d)
+        return RGoal('eq', Frac._scale(l.n, l.d, m), Frac._scale(r.n, r.d, m))
+    return REq(l, r)
+def fracs(xs, cache):
+    return [to_frac(x.r, cache) if isinstance(x, RV) and not z3.is_rational_value(x.r) else (x.r if isinstance(x, RV) else x) for x in xs]
+def check_real(S, U, fn, spec, pre, name, bounds, mutant=None, known=(), timeout=None, ins=None, mandatory=True, unwind=16):
+    """(1) the executor's side obligations (code's divisors != 0, sqrt arguments >= 0, loop bounds) under pre;  (2) the goals, cross-multiplied"""
+    S.check_fn(U, fn, None, pre, mode='real', name=name + '.domain', timeout=timeout, bounds=bounds, ins=ins, mandatory=mandatory, unwind=unwind)
+    S.check_fn(U, fn, spec, pre, mode='real', name=name, timeout=timeout, bounds=bounds, ins=ins, mandatory=mandatory, unwind=unwind, side=False, witness=False, mutant=mutant, known=known)
 
 def ident_goals(tag, X, Y, L):
     """(X*Y)[c][r] == delta for column-major X, Y (lists of columns)"""
     P = mmul(X, Y)
-    return [('%s[%d][%d]' % (tag, c, r), REq(P[c][r], delta(c, r, P[c][r]))) for c in range(L) for r in range(L)]
+    return [('%s[%d][%d]' % (tag, c, r), FEq(P[c][r], delta(c, r, P[c][r]))) for c in range(L) for r in range(L)]
 
 def job_inverse(t, L):
     U = UNITS[t]
@@ -81,9 +155,8 @@ def job_inverse(t, L):
             return ident_goals('inverse(M)*M', I, A, L) + ident_goals('M*inverse(M)', A, I, L)
         def mut(i, o):
             A = unflat(i[0], L, L); I = unflat(rv(o[0]), L, L); P = mmul(transpose(I), A)
-            return [('transposed-inverse', REq(P[1][0], zero(P[1][0])))]
-        S.check_fn(U, 'inv_%d' % L, spec, lambda i: [leibniz(unflat(i[0], L, L)) != 0], mode='real', name='c10_%s.inverse%d.real' % (t, L), mutant=mut,
-                   timeout=S.cap(60, 180), bounds='all real %dx%d matrices with det != 0' % (L, L))
+            return [('transposed-inverse', FEq(P[1][0], zero(P[1][0])))]
+        check_real(S, U, 'inv_%d' % L, spec, lambda i: [leibniz(unflat(i[0], L, L)) != 0], 'c10_%s.inverse%d.real' % (t, L), 'all real %dx%d matrices with det != 0' % (L, L), mutant=mut, timeout=S.cap(60, 180))
     return run
 
 def job_det(t, L):
@@ -91,24 +164,31 @@ def job_det(t, L):
     def run(S):
         def spec(i, o):
             A = unflat(i[0], L, L); B = unflat(i[1], L, L); d = rv(o[0])
-            return [('determinant==Leibniz', REq(d[0], leibniz(A))), ('determinant(transpose)', REq(d[1], leibniz(A))), ('determinant(A*B)==det(A)*det(B)', REq(d[2], leibniz(A) * leibniz(B)))]
+            return [('determinant==Leibniz', FEq(d[0], leibniz(A))), ('determinant(transpose)', FEq(d[1], leibniz(A))), ('determinant(A*B)==det(A)*det(B)', FEq(d[2], leibniz(A) * leibniz(B)))]
         def mut(i, o):
             A = unflat(i[0], L, L); A2 = [list(c) for c in A]; A2[0][0], A2[0][1] = A2[0][1], A2[0][0]
-            return [('swapped-entry', REq(rv(o[0])[0], leibniz(A2)))]
+            return [('swapped-entry', FEq(rv(o[0])[0], leibniz(A2)))]
         S.check_fn(U, 'det_%d' % L, spec, mode='real', name='c10_%s.determinant%d.real' % (t, L), mutant=mut, timeout=S.cap(90, 240), bounds='all real %dx%d matrices' % (L, L))
     return run
 
 def job_invT(t, L):
     U = UNITS[t]
     def run(S):
-        def spec(i, o):
-            A = unflat(i[0], L, L); IT = unflat(rv(o[0]), L, L); I = unflat(rv(o[1]), L, L)
-            g = [('inverseTranspose==transpose(inverse)[%d][%d]' % (c, r), REq(IT[c][r], I[r][c])) for c in range(L) for r in range(L)]
-            return g + ident_goals('transpose(inverseTranspose(M))*M', transpose(IT), A, L)
+        pre = lambda i: [leibniz(unflat(i[0], L, L)) != 0]
+        def spec_eq(i, o):
+            IT = unflat(rv(o[0]), L, L); I = unflat(rv(o[1]), L, L)
+            return [('inverseTranspose==transpose(inverse)[%d][%d]' % (c, r), FEq(IT[c][r], I[r][c])) for c in range(L) for r in range(L)]
+        def spec_id(i, o):
+            # independent of glm::inverse: X = transpose(inverseTranspose(M)) is a two-sided inverse of M
+            A = unflat(i[0], L, L); IT = unflat(rv(o[0]), L, L)
+            return ident_goals('transpose(inverseTranspose(M))*M', transpose(IT), A, L) + ident_goals('M*transpose(inverseTranspose(M))', A, transpose(IT), L)
         def mut(i, o):
             IT = unflat(rv(o[0]), L, L); I = unflat(rv(o[1]), L, L)
-            return [('not-transposed', REq(IT[1][0], I[1][0]))]
-        S.check_fn(U, 'invT_%d' % L, spec, lambda i: [leibniz(unflat(i[0], L, L)) != 0], mode='real', name='c10_%s.inverseTranspose%d.real' % (t, L), mutant=mut,
+            return [('not-transposed', FEq(IT[1][0], I[1][0]))]
+        kn = ['KF-C10-inverseTranspose2'] if L == 2 else []
+        check_real(S, U, 'invT_%d' % L, spec_id, pre, 'c10_%s.inverseTranspose%d.real' % (t, L), 'all real %dx%d matrices with det != 0' % (L, L), known=kn, mutant=None if L == 2 else mut, timeout=S.cap(60, 180))
+        # the literal statement (two rational functions produced by the code compared entry by entry); for 4x4 the nonlinear solver does not finish -> optional there
+        S.check_fn(U, 'invT_%d' % L, spec_eq, pre, mode='real', name='c10_%s.inverseTranspose%d.vs-inverse.real' % (t, L), known=kn, witness=False, side=False,
                    timeout=S.cap(60, 180), bounds='all real %dx%d matrices with det != 0' % (L, L))
     return run
 
@@ -124,13 +204,13 @@ def job_affine(t, L):
     def run(S):
         def spec(i, o):
             A = unflat(i[0], L, L); AI = unflat(rv(o[0]), L, L); I = unflat(rv(o[1]), L, L)
-            g = [('affineInverse==inverse[%d][%d]' % (c, r), REq(AI[c][r], I[c][r])) for c in range(L) for r in range(L)]
+            g = [('affineInverse==inverse[%d][%d]' % (c, r), FEq(AI[c][r], I[c][r])) for c in range(L) for r in range(L)]
             return g + ident_goals('affineInverse(M)*M', AI, A, L)
         def mut(i, o):
             AI = unflat(rv(o[0]), L, L); I = unflat(rv(o[1]), L, L)
-            return [('translation-sign', REq(AI[L - 1][0], -I[L - 1][0]))]
-        S.check_fn(U, 'aff_%d' % L, spec, lambda i: [leibniz(unflat(i[0], L, L)) != 0], mode='real', ins=affine_ins(L), name='c10_%s.affineInverse%d.real' % (t, L), mutant=mut,
-                   timeout=S.cap(60, 180), bounds='all real affine %dx%d matrices (last row 0..0 1) with det != 0' % (L, L))
+            return [('translation-sign', FEq(AI[L - 1][0], -I[L - 1][0]))]
+        check_real(S, U, 'aff_%d' % L, spec, lambda i: [leibniz(unflat(i[0], L, L)) != 0], 'c10_%s.affineInverse%d.real' % (t, L), 'all real affine %dx%d matrices (last row 0..0 1) with det != 0' % (L, L),
+                   ins=affine_ins(L), mutant=mut, timeout=S.cap(60, 180))
     return run
 
 def job_div(t, L):
@@ -140,16 +220,15 @@ def job_div(t, L):
             A = unflat(i[0], L, L); B = unflat(i[1], L, L); v = i[2]
             X = unflat(rv(o[0]), L, L); x = rv(o[1]); y = rv(o[2]); X2 = unflat(rv(o[3]), L, L)
             XB = mmul(X, B); X2B = mmul(X2, B); Bx = mulv(B, x); yB = vmul(y, B)
-            g = [('(A/B)*B==A[%d][%d]' % (c, r), REq(XB[c][r], A[c][r])) for c in range(L) for r in range(L)]
-            g += [('B*(B/v)==v[%d]' % r, REq(Bx[r], v[r])) for r in range(L)]
-            g += [('(v/B)*B==v[%d]' % k, REq(yB[k], v[k])) for k in range(L)]
-            g += [('(A/=B)*B==A[%d][%d]' % (c, r), REq(X2B[c][r], A[c][r])) for c in range(L) for r in range(L)]
+            g = [('(A/B)*B==A[%d][%d]' % (c, r), FEq(XB[c][r], A[c][r])) for c in range(L) for r in range(L)]
+            g += [('B*(B/v)==v[%d]' % r, FEq(Bx[r], v[r])) for r in range(L)]
+            g += [('(v/B)*B==v[%d]' % k, FEq(yB[k], v[k])) for k in range(L)]
+            g += [('(A/=B)*B==A[%d][%d]' % (c, r), FEq(X2B[c][r], A[c][r])) for c in range(L) for r in range(L)]
             return g
         def mut(i, o):
             A = unflat(i[0], L, L); B = unflat(i[1], L, L); X = unflat(rv(o[0]), L, L); BX = mmul(B, X)
-            return [('left-division', REq(BX[1][0], A[1][0]))]
-        S.check_fn(U, 'div_%d' % L, spec, lambda i: [leibniz(unflat(i[1], L, L)) != 0], mode='real', name='c10_%s.divide%d.real' % (t, L), mutant=mut,
-                   timeout=S.cap(90, 240), bounds='all real A, v; all real B with det(B) != 0')
+            return [('left-division', FEq(BX[1][0], A[1][0]))]
+        check_real(S, U, 'div_%d' % L, spec, lambda i: [leibniz(unflat(i[1], L, L)) != 0], 'c10_%s.divide%d.real' % (t, L), 'all real A, v; all real B with det(B) != 0', mutant=mut, timeout=S.cap(90, 240))
     return run
 
 def job_adj(t, L):
@@ -157,8 +236,8 @@ def job_adj(t, L):
     def run(S):
         def spec(i, o):
             A = unflat(i[0], L, L); J = unflat(rv(o[0]), L, L); P = mmul(J, A); Q = mmul(A, J); d = leibniz(A)
-            return [('adjugate(M)*M==det*I[%d][%d]' % (c, r), REq(P[c][r], d if c == r else zero(d))) for c in range(L) for r in range(L)] + \
-                   [('M*adjugate(M)==det*I[%d][%d]' % (c, r), REq(Q[c][r], d if c == r else zero(d))) for c in range(L) for r in range(L)]
+            return [('adjugate(M)*M==det*I[%d][%d]' % (c, r), FEq(P[c][r], d if c == r else zero(d))) for c in range(L) for r in range(L)] + \
+                   [('M*adjugate(M)==det*I[%d][%d]' % (c, r), FEq(Q[c][r], d if c == r else zero(d))) for c in range(L) for r in range(L)]
         kn = {3: ['KF-C10-adjugate3-%d%d' % (c, r) for c in range(3) for r in range(3)], 4: ['KF-C10-adjugate4-%d%d' % (c, r) for c in range(4) for r in range(4)]}.get(L, [])
         S.check_fn(U, 'adj_%d' % L, spec, mode='real', name='c10_%s.adjugate%d.real' % (t, L), known=kn, timeout=S.cap(60, 180), bounds='all real %dx%d matrices' % (L, L))
     return run
@@ -169,9 +248,9 @@ def job_diag(t, L):
         def spec(i, o):
             v = i[0]; I = unflat(rv(o[0]), L, L); d = rv(o[1])[0]; p = v[0]
             for k in range(1, L): p = p * v[k]
-            g = [('inverse(diagonal(v))[%d][%d]' % (c, r), REq(I[c][r] * v[c], one(v[0])) if c == r else REq(I[c][r], zero(v[0]))) for c in range(L) for r in range(L)]
-            return g + [('determinant(diagonal(v))', REq(d, p))]
-        S.check_fn(U, 'diag_%d' % L, spec, lambda i: [x != 0 for x in i[0]], mode='real', name='c10_%s.diagonal%d.real' % (t, L), timeout=S.cap(60, 180), bounds='all real v with nonzero components')
+            g = [('inverse(diagonal(v))[%d][%d]' % (c, r), FEq(I[c][r] * v[c], one(v[0])) if c == r else FEq(I[c][r], zero(v[0]))) for c in range(L) for r in range(L)]
+            return g + [('determinant(diagonal(v))', FEq(d, p))]
+        check_real(S, U, 'diag_%d' % L, spec, lambda i: [x != 0 for x in i[0]], 'c10_%s.diagonal%d.real' % (t, L), 'all real v with nonzero components', timeout=S.cap(60, 180))
     return run
 
 def job_qr(t, C, R, which, mandatory):
@@ -189,17 +268,17 @@ def job_qr(t, C, R, which, mandatory):
             if which == 'qr':
                 Q = unflat(rv(o[0]), m, R); Rm = unflat(rv(o[1]), C, m)        # Q: m columns of R rows; R: C columns of m rows
                 P = mmul(Q, Rm); QtQ = mmul(transpose(Q), Q)
-                g = [('Q*R==M[%d][%d]' % (c, r), REq(P[c][r], A[c][r])) for c in range(C) for r in range(R)]
-                g += [('QtQ==I[%d][%d]' % (c, r), REq(QtQ[c][r], delta(c, r, QtQ[c][r]))) for c in range(m) for r in range(m)]
-                g += [('R-upper-triangular[%d][%d]' % (c, r), REq(Rm[c][r], zero(Rm[c][r]))) for c in range(C) for r in range(m) if r > c]
+                g = [('Q*R==M[%d][%d]' % (c, r), FEq(P[c][r], A[c][r])) for c in range(C) for r in range(R)]
+                g += [('QtQ==I[%d][%d]' % (c, r), FEq(QtQ[c][r], delta(c, r, QtQ[c][r]))) for c in range(m) for r in range(m)]
+                g += [('R-upper-triangular[%d][%d]' % (c, r), FEq(Rm[c][r], zero(Rm[c][r]))) for c in range(C) for r in range(m) if r > c]
             else:
                 Rm = unflat(rv(o[0]), m, R); Q = unflat(rv(o[1]), C, m)        # R: m columns of R rows; Q: C columns of m rows
                 P = mmul(Rm, Q); QQt = mmul(Q, transpose(Q))
-                g = [('R*Q==M[%d][%d]' % (c, r), REq(P[c][r], A[c][r])) for c in range(C) for r in range(R)]
-                g += [('QQt==I[%d][%d]' % (c, r), REq(QQt[c][r], delta(c, r, QQt[c][r]))) for c in range(m) for r in range(m)]
+                g = [('R*Q==M[%d][%d]' % (c, r), FEq(P[c][r], A[c][r])) for c in range(C) for r in range(R)]
+                g += [('QQt==I[%d][%d]' % (c, r), FEq(QQt[c][r], delta(c, r, QQt[c][r]))) for c in range(m) for r in range(m)]
             return g
-        S.check_fn(U, '%s_%d%d' % (which, C, R), spec, indep, mode='real', name='c10_%s.%s_decompose%dx%d.real' % (t, which, C, R), timeout=S.cap(60, 300), mandatory=mandatory,
-                   unwind=8, bounds='all real %dx%d matrices with independent leading columns/rows; sqrt as algebraic y>=0, y*y=x' % (C, R))
+        check_real(S, U, '%s_%d%d' % (which, C, R), spec, indep, 'c10_%s.%s_decompose%dx%d.real' % (t, which, C, R), 'all real %dx%d matrices with independent leading columns/rows; sqrt as algebraic y>=0, y*y=x' % (C, R),
+                   timeout=S.cap(60, 300), mandatory=mandatory, unwind=8)
     return run
 
 def job_query(t, L):
